@@ -85,7 +85,9 @@ class PolyhedralTerm(Term):
         return res
 
     def __hash__(self) -> int:
-        return hash(str(self))
+        # hash the numbers, not their printed form: 0.0 and -0.0 are equal and must hash alike
+        items = sorted((var.name, coeff) for var, coeff in self.variables.items())
+        return hash((tuple(items), self.constant))
 
     def __repr__(self) -> str:
         return "<Term {0}>".format(self)
